@@ -7,8 +7,12 @@
    reissuePackChan with their capacities, and the writer goroutine (MReply, MRereq, MCmd, MAbsorb).
    A HISTORY is any list of moves [s]; a move that is not enabled does nothing, so the theorems
    quantify over every interleaving of the two goroutines, every message list and every number of
-   platform commands written in between.  [no_absorb s] excludes only the writer handing a
-   terminal RESPONSE to a waiting SendActiveMessage caller (C12's subject); [drained] = nothing
+   platform commands written in between.  The writer's choice between answering a terminal RESPONSE
+   (ids of onActiveRespondEvent's switch: 0x0001 0x0104 0x1003 0x1205 0x1206 0x0805) and handing it
+   to a waiting SendActiveMessage caller (move MAbsorb, enabled only for a complete message with such
+   an id) is left to the schedule: which of the two happens depends on the outstanding commands and
+   is C12's subject (Model/Writer.v).  The C06_outcomes_* theorems and C06_one_reply_each_without_1003
+   hold for every history; the older statements keep [no_absorb s] (no absorption at all); [drained] = nothing
    left in flight.  [answered d] is the specification (DESIGN B.6): complete, reply-bearing id,
    not a 2019 0x0102 too short for its fixed fields.  Concurrent connections: the state [conn] is
    per connection and [step] reads nothing else, so histories of different connections are
@@ -33,6 +37,35 @@ Theorem C06_replies_in_order : forall ms s, no_absorb s = true ->
   exists later, srcs (replies (trace (init ms) s)) ++ later = filter answered ms.
 Proof. exact replies_prefix. Qed.
 Print Assumptions C06_replies_in_order.
+
+(* EVERY history, absorption included: the answered messages the writer has dealt with - by their
+   automatic reply or, for a response, by handing it to the caller that waits for it - are, in order,
+   the answered messages; complete history: all of them, each exactly once *)
+Theorem C06_outcomes_each : forall ms s, drained (final (init ms) s) = true ->
+  outcomes (trace (init ms) s) = filter answered ms.
+Proof. exact outcomes_each. Qed.
+Print Assumptions C06_outcomes_each.
+
+Theorem C06_outcomes_in_order : forall ms s,
+  exists later, outcomes (trace (init ms) s) ++ later = filter answered ms.
+Proof. exact outcomes_prefix. Qed.
+Print Assumptions C06_outcomes_in_order.
+
+(* only complete messages with a response id are ever absorbed, and the only such id that has an
+   automatic reply at all is 0x1003 (the answer to a 0x9003 query) *)
+Theorem C06_absorbed_are_responses : forall ms s d, In d (absorbed (trace (init ms) s)) ->
+  is_response d = true /\ has_complete d = true /\ (answered d = true -> m_id (d_m d) = 0x1003).
+Proof. exact absorbed_answered_are_1003. Qed.
+Print Assumptions C06_absorbed_are_responses.
+
+(* hence, whatever commands are outstanding and whatever the writer does with responses: when no
+   complete 0x1003 is among the messages, one reply each, in order - every complete history *)
+Theorem C06_one_reply_each_without_1003 : forall ms s, Forall not_1003 (filter answered ms) ->
+  drained (final (init ms) s) = true ->
+  srcs (replies (trace (init ms) s)) = filter answered ms /\
+  Forall reply_ok (replies (trace (init ms) s)).
+Proof. exact one_reply_each_no1003. Qed.
+Print Assumptions C06_one_reply_each_without_1003.
 
 (* which ids are handled and which are answered with which type — for EVERY id 0..; the table of
    the code (createDefaultHandle + HasReply/ReplyProtocol) against the table of the standard *)
